@@ -96,7 +96,10 @@ class StorageTools:
     def getStorageForProfile(profile_name):
         if type(profile_name) is not str:
             profile_name = str(profile_name)
-        return StorageTools.constructPath(profile_name)
+        path = StorageTools.constructPath(profile_name)
+        if not os.path.exists(path):
+            os.makedirs(path)
+        return path
 
     @staticmethod
     def writeProfileData(profile_name, name, val):
